@@ -8,7 +8,9 @@
    A poll must not block (timeout 0) while any connected user has a complete command waiting.
    Commands of one user are served in the order received.  Users in single-character mode are
    served any non-empty prefix of their buffered bytes per turn (the property is silent about
-   how much).  command() efun calls are not modelled: they are not limited.              *)
+   how much).  command() efun calls are not modelled: they are not limited.
+   Nobody starves, also across cycles cut short by errors: between two services of one user,
+   every other user that had a command waiting at the first of them is served (owed).     *)
 EXTENDS Integers, Sequences, FiniteSets
 
 CONSTANT Users
@@ -17,29 +19,32 @@ VARIABLES conn,     \* connected users
           mode,     \* "line" | "char" per user
           queue,    \* line users: sequence of commands; char users: one string of bytes (as a sequence of 1-char strings)
           turn,     \* users holding a turn in this cycle
-          errCycle  \* an uncaught error cut this cycle short
-vars == <<conn, mode, queue, turn, errCycle>>
+          errCycle, \* an uncaught error cut this cycle short
+          owed      \* user -> users that were waiting when it was last served and have not been served since
+vars == <<conn, mode, queue, turn, errCycle, owed>>
 
 Init == /\ conn = {} /\ mode = [u \in Users |-> "line"] /\ queue = [u \in Users |-> <<>>]
-        /\ turn = {} /\ errCycle = FALSE
+        /\ turn = {} /\ errCycle = FALSE /\ owed = [u \in Users |-> {}]
 
 Connect(u) == /\ u \notin conn
               /\ conn' = conn \cup {u}
               /\ queue' = [queue EXCEPT ![u] = <<>>]
               /\ mode' = [mode EXCEPT ![u] = "line"]
+              /\ owed' = [w \in Users |-> IF w = u THEN {} ELSE owed[w] \ {u}]
               /\ UNCHANGED <<turn, errCycle>>
 
 Disconnect(u) == /\ conn' = conn \ {u}
                  /\ turn' = turn \ {u}
                  /\ queue' = [queue EXCEPT ![u] = <<>>]
+                 /\ owed' = [w \in Users |-> IF w = u THEN {} ELSE owed[w] \ {u}]
                  /\ UNCHANGED <<mode, errCycle>>
 
-SetMode(u, m) == /\ mode' = [mode EXCEPT ![u] = m] /\ UNCHANGED <<conn, queue, turn, errCycle>>
+SetMode(u, m) == /\ mode' = [mode EXCEPT ![u] = m] /\ UNCHANGED <<conn, queue, turn, errCycle, owed>>
 
 \* complete commands (or, in char mode, bytes) received from u in this poll
 Arrive(u, items) == /\ u \in conn
                     /\ queue' = [queue EXCEPT ![u] = @ \o items]
-                    /\ UNCHANGED <<conn, mode, turn, errCycle>>
+                    /\ UNCHANGED <<conn, mode, turn, errCycle, owed>>
 
 IsPrefix(s, t) == Len(s) <= Len(t) /\ SubSeq(t, 1, Len(s)) = s
 
@@ -50,9 +55,11 @@ Serve(u, items) ==
   /\ mode[u] = "line" => Len(items) = 1
   /\ queue' = [queue EXCEPT ![u] = SubSeq(@, Len(items) + 1, Len(@))]
   /\ turn' = turn \ {u}
+  /\ owed[u] = {}                                   \* nobody who was waiting when u was last served is still unserved
+  /\ owed' = [w \in Users |-> IF w = u THEN {v \in conn \ {u} : queue[v] # <<>>} ELSE owed[w] \ {u}]
   /\ UNCHANGED <<conn, mode, errCycle>>
 
-Error == errCycle' = TRUE /\ UNCHANGED <<conn, mode, queue, turn>>
+Error == errCycle' = TRUE /\ UNCHANGED <<conn, mode, queue, turn, owed>>
 
 Waiting == {u \in conn : queue[u] # <<>>}
 
@@ -62,7 +69,7 @@ Poll(timeout) ==
   /\ Waiting # {} => timeout = 0                      \* must not sleep on pending commands
   /\ turn' = conn
   /\ errCycle' = FALSE
-  /\ UNCHANGED <<conn, mode, queue>>
+  /\ UNCHANGED <<conn, mode, queue, owed>>
 
 TypeOK == turn \subseteq conn
 =============================================================================
